@@ -114,6 +114,14 @@ def generate(seed, tier):
             case["first"] = {"dim_seq": [[a, b] for a, b in sorted(d0.items())], "deg_seq": g0}
         case["dim_seq"] = [[s, c] for s, c in sorted(dim.items())]
         case["deg_seq"] = deg
+        case["allow_rescaling"] = rng.random() < 0.4
+        x = rng.random()
+        if x < 0.06:
+            case["w"] = [[0.0] * len(case["w"]) for _ in case["w"]]  # no community interacts: every expected statistic is exactly 0
+            case.pop("block_structured", None)
+        elif x < 0.10:
+            case["u"] = [[0.0] * len(r) for r in case["u"]]
+            case.pop("block_structured", None)
     return case
 
 
@@ -156,6 +164,8 @@ def _run(case, salt):
                 _ARGS.clear()
                 _ARGS[key] = (np.array(case["deg_seq"]), {s: c for s, c in case["dim_seq"]})
             kw["deg_seq"], kw["dim_seq"] = _ARGS[key]
+            if case.get("allow_rescaling"):
+                kw["allow_rescaling"] = True
         if case.get("first"):
             try:
                 g0 = sampler.sample(deg_seq=np.array(case["first"]["deg_seq"]), dim_seq={a: b for a, b in case["first"]["dim_seq"]})
@@ -235,6 +245,15 @@ def _check_sample(case, h, idx, matching, init):
             if d > cdeg.get(n, 0):
                 raise Violation("C16/conditioning/degree-exceeded", {"node": short(n), "degree": d, "conditioned": cdeg.get(n, 0),
                                                                        "matching_sequences": matching, **ctx})
+    # hyperedges are only ever lost by coinciding with an identical one, which leaves at least one hyperedge of that
+    # size, containing the same nodes, in the sample: no conditioned size and no conditioned node may vanish altogether
+    for s, c in csize.items():
+        if c >= 1 and size.get(s, 0) == 0:
+            raise Violation("C16/conditioning/size-vanished", {"size": s, "conditioned": c, "matching_sequences": matching, **ctx})
+    if degrees_binding:
+        for n, d in cdeg.items():
+            if d >= 1 and deg.get(n, 0) == 0:
+                raise Violation("C16/conditioning/node-vanished", {"node": short(n), "conditioned": d, **ctx})
     total = sum(csize.values())
     full = len(edges) == total
     if full and degrees_binding:
